@@ -348,6 +348,92 @@ Proof.
   induction rp as [|c rp IH]; intro d; [reflexivity|]. cbn [ig_up]. rewrite H. apply IH.
 Qed.
 
+(* ------------------------------------------------------------------ the law on the text of the ignore file *)
+
+(** a plain directory name: non-empty, no '/', '*', '?', not starting with '#' or '!' *)
+Definition plain_char (c : N) : bool := negb ((c =? 47) || (c =? 42) || (c =? 63)).
+Definition plain_name (d : str) : bool :=
+  forallb plain_char d && match d with c :: _ => negb ((c =? 35) || (c =? 33)) | [] => false end.
+
+Lemma split_byte_aux_none : forall c s cur, has_byte c s = false -> split_byte_aux c s cur = [rev cur ++ s].
+Proof.
+  intros c. induction s as [|b s IH]; cbn; intros cur H.
+  - now rewrite app_nil_r.
+  - apply orb_false_iff in H as [Hb Hs]. rewrite Hb. rewrite (IH (b :: cur) Hs). cbn. now rewrite <- app_assoc.
+Qed.
+
+Lemma plain_no_slash : forall d, forallb plain_char d = true -> has_byte 47 d = false.
+Proof.
+  induction d as [|c d IH]; cbn; intro H; [reflexivity|].
+  apply andb_true_iff in H as [Hc Hd]. unfold plain_char in Hc. apply negb_true_iff in Hc.
+  apply orb_false_iff in Hc as [Hc _]. apply orb_false_iff in Hc as [Hc _]. rewrite Hc. now apply IH.
+Qed.
+
+Lemma plain_glits : forall d, forallb plain_char d = true -> map parse_gch d = map GLit d.
+Proof.
+  induction d as [|c d IH]; cbn; intro H; [reflexivity|].
+  apply andb_true_iff in H as [Hc Hd]. rewrite (IH Hd). f_equal.
+  unfold plain_char in Hc. apply negb_true_iff in Hc.
+  apply orb_false_iff in Hc as [Hc H63]. apply orb_false_iff in Hc as [_ H42].
+  unfold parse_gch. now rewrite H42, H63.
+Qed.
+
+(** The text line "d/" denotes the directory pattern of the README law. *)
+Theorem parse_dir_line : forall d, plain_name d = true -> parse_line (d ++ [47]) = Some (dir_pat d).
+Proof.
+  intros d H. unfold plain_name in H. apply andb_true_iff in H as [Hp Hh].
+  destruct d as [|c d]; [discriminate|].
+  apply negb_true_iff in Hh. apply orb_false_iff in Hh as [H35 H33].
+  pose proof Hp as Hp'. cbn [forallb] in Hp'. apply andb_true_iff in Hp' as [Hc Hd].
+  unfold plain_char in Hc. apply negb_true_iff in Hc.
+  apply orb_false_iff in Hc as [Hc H63]. apply orb_false_iff in Hc as [H47 H42].
+  unfold parse_line.
+  (* not a comment *)
+  assert (E1 : starts_with [35] ((c :: d) ++ [47]) = false).
+  { unfold starts_with. cbn [app strip_prefix]. rewrite N.eqb_sym, H35. reflexivity. }
+  rewrite E1.
+  (* nothing to trim: the line ends in '/' *)
+  assert (E2 : forall s : str, trim_end (s ++ [47]) = s ++ [47]).
+  { intro s. unfold trim_end. rewrite rev_app_distr. change (rev [47] ++ rev s) with (47 :: rev s).
+    change (trim_start (47 :: rev s)) with (47 :: rev s). change (rev (47 :: rev s)) with (rev (rev s) ++ [47]).
+    now rewrite rev_involutive. }
+  rewrite E2. cbn [app is_empty].
+  rewrite H33, H47.
+  (* trailing slash *)
+  assert (E3 : forall s : str, ends_with [47] (s ++ [47]) = true).
+  { intro s. unfold ends_with. rewrite rev_app_distr. reflexivity. }
+  change (c :: d ++ [47]) with ((c :: d) ++ [47]).
+  rewrite E3.
+  assert (E4 : forall s : str, drop_last 1 (s ++ [47]) = s).
+  { intro s. unfold drop_last. rewrite rev_app_distr. change (skipn 1 (rev [47] ++ rev s)) with (rev s).
+    apply rev_involutive. }
+  rewrite E4.
+  pose proof (plain_no_slash (c :: d) Hp) as Hs.
+  unfold split_byte. rewrite (split_byte_aux_none 47 (c :: d) [] Hs). cbn [rev app map].
+  rewrite Hs. cbn [orb].
+  assert (E5 : parse_comp (c :: d) = CGlob (map GLit (c :: d))).
+  { unfold parse_comp. cbn [str_eqb]. rewrite H42. cbn [andb]. now rewrite (plain_glits (c :: d) Hp). }
+  rewrite E5. reflexivity.
+Qed.
+
+Lemma parse_lines_In : forall ls l p, In l ls -> parse_line l = Some p -> In p (parse_lines ls).
+Proof.
+  induction ls as [|x ls IH]; cbn; intros l p Hin Hp; [easy|].
+  destruct Hin as [->|Hin].
+  - rewrite Hp. now left.
+  - destruct (parse_line x); [right|]; eapply IH; eauto.
+Qed.
+
+(** README, on the file's text: if the ignore file has a line "d/" (d a plain name) and no negation lines, every
+    path with a proper ancestor directory named d is ignored. *)
+Theorem gi_dir_line : forall lines d pre post isd,
+  no_neg (parse_lines lines) = true -> In (d ++ [47]) lines -> plain_name d = true -> post <> [] ->
+  gi_ignored (parse_lines lines) (pre ++ d :: post) isd = true.
+Proof.
+  intros lines d pre post isd Hn Hin Hd Hpost. apply gi_dir_pattern; auto.
+  eapply parse_lines_In; [exact Hin | now apply parse_dir_line].
+Qed.
+
 (* ------------------------------------------------------------------ non-vacuity and the code before the repairs *)
 
 (** names used by the examples: "temp", "sub", "b.sql", "a.sql", "x.hql", "d.sql" *)
@@ -377,6 +463,10 @@ Example gi_dir_pattern_nonvacuous :
   gi_ignored (parse_lines readme_lines) ([n_sub] ++ n_temp :: [n_bsql]) false = true /\
   gi_ignored (parse_lines readme_lines) [n_asql] false = false.
 Proof. vm_compute. repeat split; auto. Qed.
+
+Example gi_dir_line_nonvacuous :
+  no_neg (parse_lines readme_lines) = true /\ In (n_temp ++ [47]) readme_lines /\ plain_name n_temp = true.
+Proof. vm_compute. repeat split; auto 10. Qed.
 
 Example linted_readme :
   linted readme_tree [ext_sql; ext_hql] (parse_lines readme_lines) [ {| a_pfx := Dot; a_path := [] |} ]
